@@ -70,8 +70,10 @@ def mut_drop_close(evs):
 
 def mut_cmd_without_conn(evs):
     # a command read by the server during a Send that has no connection
+    if evs[0]['ops'][0]['op'] != 'Send':     # the first call of the history: no connection can exist
+        return None
     for j, e in enumerate(evs):
-        if e['ev'] == 'ret' and e['op'] == 'Send' and e.get('noconn') and evs[j - 1]['ev'] == 'call':
+        if e['ev'] == 'ret' and e['k'] == 1 and e.get('noconn') and evs[j - 1]['ev'] == 'call':
             extra = {'ev': 'cmd', 'verb': 'NOOP', 'm': 0, 'r': 0, 'params': [], 'enc': False, 'cred': False, 'mech': '', 'wf': True,
                      'line': 'NOOP', 'conn': 1}
             return evs[:j] + [extra] + evs[j:]
